@@ -25,7 +25,7 @@ SECRETS = ["", "a", "b", "A", "a ", "aa", "é", "é", "a\x00", {"$": "bigstr", 
            "hunter2-ZQX", "pässwörd-ÜÑ", "user:pass", "abcd:efgh", ":", "QUJD:QUJD", "sysadmin:hunter22", "{\"salt\": \"x\"}"]
 FORMATS = ["json", "yaml", "xml", "bson", "pickle"]
 ROUTES = ["attr", "ctor", "default", "default-callable", "digest-default", "load_tree", "document", "document-yaml", "document-xml", "list-assign", "list-append",
-          "dict-item", "dict-setdefault", "dict-update", "dict-ior", "dict-assign", "list-insert", "list-setitem", "list-setslice", "list-extend", "list-iadd",
+          "list-assign-dup", "tuple-assign-dup", "list-default-dup", "dict-assign-dup", "dict-item", "dict-setdefault", "dict-update", "dict-ior", "dict-assign", "list-insert", "list-setitem", "list-setslice", "list-extend", "list-iadd",
           "list-from-str-proxy", "list-extend-str-proxy", "list-iadd-any-proxy", "sub-document-xml"]
 
 
@@ -106,6 +106,19 @@ def _place(schema, route, p, alg):
     if route == "list-assign":
         cfg = schema(); cfg.l = [p]
         return cfg, lambda c: c.l[0]
+    if route in ("list-assign-dup", "tuple-assign-dup"):        # the same secret at several positions of one assigned value
+        vals = [p, "another-secret", p]
+        cfg = schema(); cfg.l = vals if route.startswith("list") else tuple(vals)
+        return cfg, lambda c: c.l[0]
+    if route == "list-default-dup":
+        import cincoconfig as cc3
+        s2 = cc3.Schema()
+        s2.l = cc3.ListField(cc3.ChallengeField(alg), default=[p, "another-secret", p])
+        cfg = s2()
+        return cfg, lambda c: c.l[0]
+    if route == "dict-assign-dup":
+        cfg = schema(); cfg.d = {"k": p, "j": "another-secret", "m": p}
+        return cfg, lambda c: c.d["k"]
     if route == "list-append":
         cfg = schema(); cfg.l = []; cfg.l.append(p)
         return cfg, lambda c: c.l[0]
@@ -254,6 +267,10 @@ def _pairs(job, ctx):
         ctx.states += 1
         if not check_digest(ctx, bad, alg, dv, p, secrets, salts, "after " + route):
             continue
+        if route.endswith("-dup"):
+            twin = cfg.d["m"] if route.startswith("dict") else cfg.l[2]
+            if not check_digest(ctx, bad, alg, twin, p, secrets[:3], salts, "the same secret at another position, after " + route):
+                continue
         # a second assignment of the same secret gets another salt
         if route not in ("digest-default",):
             try:
